@@ -345,7 +345,7 @@ where
             }
             after_terminal += 1;
         }
-        if polls >= max_polls || log.lock().unwrap().calls > 64 {
+        if polls >= max_polls || log.lock().unwrap().calls > std::cmp::max(64, max_polls / 4) {
             stopped = "max_polls";
             break;
         }
